@@ -557,7 +557,13 @@ func krRaceUseRemove(prop string, r *rng, id string) {
 	go worker(false, &doneB, &resB, func(n int64) int { return int(n % 5 * 17) })
 	defer close(stop)
 	rounds := int64(40000)
+	began := time.Now()
 	for n := int64(1); n <= rounds; n++ {
+		// (three spinning goroutines: on a machine that is busy with other things the rounds are cut short
+		// rather than run into the harness timeout)
+		if n%512 == 0 && time.Since(began) > 20*time.Second {
+			break
+		}
 		ring, _ := ml.NewKeyring(pool.keys[1:], pool.keys[0])
 		kr.Store(ring)
 		round.Store(n)
